@@ -7,6 +7,11 @@ correspondence : standard_aggregation / naive_aggregation kernels (rebuilt from 
                  about) on weighted patterns (ties, isolated nodes, nonsymmetric / unsorted /
                  duplicate entries, explicit zeros) and on every kernel call the public wrapper
                  makes (recorded), exact on x, y[:k], k.
+                 Lloyd (part d): `lloyd_cluster` with explicit centres, `lloyd_aggregation` through the public
+                 wrapper with the replayed `numpy.random.permutation`, and the raw `most_interior_nodes` kernel vs
+                 `ExtLloyd.lloydCluster` / `lloydAggregation` / `mostInterior` (ops `ext_c12_lloyd`, `ext_c12_lloyd_agg`,
+                 `ext_c12_most_interior`), exact on clusters, centres, AggOp CSR arrays, ValueError rejections;
+                 symmetric and nonsymmetric patterns, ties, zero-length edges, duplicate entries / centres.
 search         : public routines of pyamg/aggregation/aggregate.py (standard, naive, pairwise with
                  1..3 matchings, Lloyd, balanced Lloyd) judged by the partition specification; the
                  pairwise wrapper's T and Cpts must be the composition of its recorded matchings.
@@ -18,18 +23,23 @@ import scipy.sparse as sp
 from scipy.sparse import csgraph
 
 import gen
-from common import enc_ints, enc_rats
+from common import enc_ints, enc_rats, enc_rat
 
 META = {
     'rule': 'graphs: every labelled graph on <= 4 (quick) / <= 6 (thorough) vertices with and without self loops, plus seeded '
             'structured random graphs up to n = 60 (paths, stars, cycles, cliques, isolated pairs, grids, two components); '
-            'non-trivial = the graph has an edge; distinct = distinct (routine, graph, parameters)',
-    'search_only': ['Lloyd / balanced Lloyd: specification checkers on the real outputs',
+            'non-trivial = the graph has an edge; distinct = distinct (routine, graph, parameters); Lloyd part: the same graph '
+            'streams with small dyadic weights, 1..4 centres, maxiter 0..5, all five measures',
+    'search_only': ['balanced Lloyd: specification checkers on the real outputs (no Lean model)',
+                    'Lloyd: np.random.permutation itself is replayed, not modelled; complex strength values and measure=inv '
+                    'with a stored zero (1/0 = inf) are outside the model (judged by the specification checker only)',
                     'pairwise wrapper: strength matrices and Galerkin products between matchings are not modelled; every kernel '
                     'call the wrapper makes is compared with the Lean kernel model, and T / Cpts with the composition of the '
                     'recorded assignment maps (the object of pairwise_matchings_fiber)'],
-    'partial': ['lloyd: only "every node that reaches a centre is assigned" is checked'],
-    'assumptions': [],
+    'partial': [],
+    'assumptions': ['Lloyd theorems (lloyd_cluster_spec, lloyd_aggregation_spec): symmetric sparsity pattern, column indices in '
+                    'range, weights non-negative after the measure, distinct initial centres, maxiter >= 1; Lloyd exact comparison: '
+                    'small dyadic weights (path sums exact in binary64), dyadic ratio, powers of two for measure=inv'],
 }
 
 
@@ -395,20 +405,278 @@ def part_b(ctx, graphs):
     compare_pairwise_calls(ctx, wrapper_calls)
 
 
+# ---------------------------------------------------------------------------------------------
+# part d (extension E18): Lloyd clustering / aggregation vs the executable Lean model
+# `ExtLloyd.lloydCluster` / `ExtLloyd.lloydAggregation` (ops `ext_c12_lloyd`, `ext_c12_lloyd_agg`,
+# `ext_c12_most_interior`), exact on dyadic weights whose path sums are exact in binary64.
+
+def lloyd_weights(rng, M, t, pow2=False):
+    """(ap, aj, ax, kind): small dyadic non-negative weights (ties, zero-length edges), symmetric and
+    nonsymmetric weights / patterns, unsorted rows with duplicate entries, self loops"""
+    M = np.array(M)
+    n = M.shape[0]
+    pat = M != 0
+    mode = t % 5
+    vals = [0.25, 0.5, 1.0, 1.0, 2.0, 4.0] if pow2 else [0.0, 0.25, 0.5, 1.0, 1.0, 1.5, 2.0, 3.0]
+    sym = True
+    if mode == 0:       # unit weights: every comparison is a tie
+        W = np.ones((n, n))
+    elif mode in (1, 2):     # symmetric weights, many ties
+        W = rng.choice(vals, size=(n, n))
+        W = np.triu(W) + np.triu(W, 1).T
+    elif mode == 3:     # nonsymmetric weights on a symmetric pattern
+        W = rng.choice(vals, size=(n, n))
+    else:               # nonsymmetric pattern
+        W = rng.choice(vals, size=(n, n))
+        pat = pat & (rng.random((n, n)) < 0.7)
+        sym = False
+    dup = t % 7 == 3
+    ap, aj, ax = [0], [], []
+    for i in range(n):
+        cols = [int(c) for c in np.nonzero(pat[i])[0]]
+        if dup and n:
+            extra = [int(c) for c in rng.integers(0, n, size=int(rng.integers(0, 3)))]
+            sym = sym and not extra
+            cols += extra
+            rng.shuffle(cols)
+        for c in cols:
+            aj.append(c)
+            ax.append(float(W[i, c]))
+        ap.append(len(aj))
+    kind = ('unit', 'symw', 'symw', 'nonsymw', 'nonsympat')[mode] + ('+dup' if dup else '')
+    return (np.array(ap, dtype=np.int32), np.array(aj, dtype=np.int32), np.array(ax, dtype=np.float64), kind, sym)
+
+
+def _reach(n, ap, aj, sources):
+    seen = np.zeros(n, dtype=bool)
+    stack = [int(s) for s in sources if 0 <= int(s) < n]
+    for s in stack:
+        seen[s] = True
+    while stack:
+        i = stack.pop()
+        for jj in range(ap[i], ap[i + 1]):
+            j = int(aj[jj])
+            if not seen[j]:
+                seen[j] = True
+                stack.append(j)
+    return seen
+
+
+def lloyd_cluster_spec_error(n, ap, aj, clusters, centers, k):
+    """the clauses of `ExtLloyd.lloydCluster_spec` stated independently on a real output (symmetric pattern,
+    distinct initial centres, maxiter >= 1)"""
+    clusters = [int(v) for v in clusters]
+    centers = [int(v) for v in centers]
+    if len(centers) != k or len(clusters) != n:
+        return f'{len(centers)} centres / {len(clusters)} cluster ids for k = {k}, n = {n}'
+    if any(not (-1 <= v < k) for v in clusters):
+        return 'a cluster id lies outside -1..k-1'
+    if any(not (0 <= c < n) for c in centers):
+        return 'a centre lies outside 0..n-1'
+    for a, c in enumerate(centers):
+        if clusters[c] != a:
+            return f'centre {c} of cluster {a} carries cluster id {clusters[c]} (cluster {a} has no root inside)'
+    seen = _reach(n, ap, aj, centers)
+    for i in range(n):
+        if bool(seen[i]) != (clusters[i] >= 0):
+            return f'node {i} can{"" if seen[i] else "not"} be reached from a centre but has cluster id {clusters[i]}'
+    return None
+
+
+def _hdr(n, ap, aj, ax):
+    return f'{n} {enc_ints(ap)} {enc_ints(aj)} {enc_rats(ax)}'
+
+
+def _orats(d):
+    return ','.join('inf' if not np.isfinite(v) else enc_rat(v) for v in d) if len(d) else '-'
+
+
+def lloyd_cluster_item(n, ap, aj, ax, centers, maxiter):
+    """run the real `lloyd_cluster`; return (request line, implementation output)"""
+    from pyamg import graph as PG
+    G = sp.csr_array((ax.copy(), aj.copy(), ap.copy()), shape=(n, n))
+    line = f'ext_c12_lloyd {_hdr(n, ap, aj, ax)} {enc_ints(centers)} {maxiter}'
+    try:
+        cl, ce = PG.lloyd_cluster(G, np.array(centers, dtype=np.int32), maxiter=maxiter)
+        out = enc_ints(cl) + ';' + enc_ints(ce)
+        res = (np.array(cl), np.array(ce))
+    except ValueError:
+        out, res = 'ValueError', None
+    return line, out, res
+
+
+def part_d(ctx, graphs):
+    from pyamg import amg_core
+    from pyamg.aggregation import aggregate as AG
+    rng = ctx.np_rng
+    items = []      # (line, impl output, what, nontrivial, judge) ; judge() -> error string of the property or None
+    for t, (M, kind) in enumerate(graphs):
+        M = np.array(M)
+        n = M.shape[0]
+        if n < 1:
+            continue
+        ap, aj, ax, wk, sym = lloyd_weights(rng, M, t)
+        has_edge = bool(len(aj))
+        ctx.feat('lloyd_weights:' + wk)
+        # ---- lloyd_cluster with explicit centres
+        k = int(rng.integers(1, min(n, 4) + 1))
+        centers = rng.choice(n, size=k, replace=False).astype(np.int32)
+        distinct, valid = True, True
+        r = t % 23
+        if r == 5 and n >= 2:
+            centers = np.append(centers, centers[0]).astype(np.int32)      # duplicate centre: the last one wins
+            distinct = False
+        elif r == 7:
+            centers = np.append(centers, n).astype(np.int32)
+            valid = False
+        elif r == 9:
+            centers = np.append(centers, -1).astype(np.int32)
+            valid = False
+        elif r == 11:
+            centers = np.zeros(0, dtype=np.int32)
+            valid = False
+        axc = ax
+        if r == 13 and len(ax):
+            axc = ax.copy()
+            axc[int(rng.integers(len(ax)))] = -0.5
+            valid = False
+        maxiter = int(rng.integers(0, 6))
+        c0 = [int(v) for v in centers]
+        line, out, res = lloyd_cluster_item(n, ap, aj, axc, centers, maxiter)
+        case = {'routine': 'lloyd_cluster', 'n': n, 'ap': ap.tolist(), 'aj': aj.tolist(), 'ax': [float(v) for v in axc],
+                'centers': c0, 'maxiter': maxiter}
+
+        def judge(res=res, n=n, ap=ap, aj=aj, k=len(c0), sym=sym, distinct=distinct, valid=valid, maxiter=maxiter):
+            if res is None:
+                return None if not valid else 'ValueError for a valid input'
+            if not valid:
+                return 'an invalid input was accepted'
+            if sym and distinct and maxiter >= 1:
+                return lloyd_cluster_spec_error(n, ap, aj, res[0], res[1], k)
+            return None
+        items.append((line, out, 'lloyd_cluster', has_edge, judge, case))
+        ctx.feat('lloyd_cluster:' + ('valid' if valid else 'rejected') + ('' if distinct else '+dupcentre'))
+        # ---- raw most_interior_nodes kernel on an arbitrary state
+        if t % 2 == 0:
+            kk = int(rng.integers(1, min(n, 4) + 1))
+            c = rng.integers(0, n, size=kk).astype(np.int32)
+            m = rng.integers(-1, kk, size=n).astype(np.int32)
+            p = rng.integers(-1, n, size=n).astype(np.int32)
+            d = rng.choice([0.0, 1.0, np.inf], size=n)
+            line = f'ext_c12_most_interior {_hdr(n, ap, aj, ax)} {enc_ints(c)} {enc_ints(m)} {enc_ints(p)}'
+            case = {'routine': 'most_interior', 'n': n, 'ap': ap.tolist(), 'aj': aj.tolist(), 'ax': [float(v) for v in ax],
+                    'c': c.tolist(), 'm': m.tolist(), 'p': p.tolist()}
+            ch = amg_core.most_interior_nodes(n, ap, aj, ax, c, d, m, p)
+            out = enc_ints(c) + ';' + _orats(d) + ';' + enc_ints(m) + ';' + enc_ints(p) + ';' + ('true' if ch else 'false')
+            items.append((line, out, 'most_interior_nodes', has_edge, lambda: None, case))
+        # ---- lloyd_aggregation through the public wrapper: the centres are the replayed permutation
+        if t % 2 == 1 or n <= 4:
+            measure = ['None', 'unit', 'abs', 'inv', 'min'][int(rng.integers(5))]
+            if measure == 'inv':
+                ap, aj, ax, wk, sym = lloyd_weights(rng, M, t, pow2=True)
+            ratio = float(rng.choice([0.125, 0.25, 0.5, 0.75, 1.0]))
+            maxiter = int(rng.integers(0, 5))
+            seed = int(rng.integers(2**31))
+            np.random.seed(seed)
+            perm = np.random.permutation(n)
+            C = sp.csr_array((ax.copy(), aj.copy(), ap.copy()), shape=(n, n))
+            kw = {'ratio': ratio, 'measure': None if measure == 'None' else measure, 'maxiter': maxiter}
+            line = f'ext_c12_lloyd_agg {measure} {enc_rat(ratio)} {_hdr(n, ap, aj, ax)} {enc_ints(perm)} {maxiter}'
+            case = {'routine': 'lloyd_aggregation', 'n': n, 'ap': ap.tolist(), 'aj': aj.tolist(), 'ax': [float(v) for v in ax],
+                    'seed': seed, **kw}
+            np.random.seed(seed)
+            import warnings
+            try:
+                with warnings.catch_warnings():
+                    warnings.simplefilter('ignore')
+                    AggOp, ce = AG.lloyd_aggregation(C, **kw)
+                AggOp = sp.csr_array(AggOp)
+                out = enc_ints(AggOp.indptr) + ';' + enc_ints(AggOp.indices) + ';' + enc_ints(AggOp.data) + ';' + enc_ints(ce)
+                res = (AggOp, ce)
+            except ValueError:
+                out, res = 'ValueError', None
+
+            def judge_agg(res=res, n=n, ap=ap, aj=aj, sym=sym, maxiter=maxiter):
+                if res is None:
+                    return 'ValueError for a valid input'
+                if not sym:
+                    return None     # the property (and the theorem) is about symmetric strength graphs
+                e = check_aggop(res[0], res[1], n, 'lloyd')
+                if e or maxiter < 1:
+                    return e
+                D = res[0].toarray()
+                seen = _reach(n, ap, aj, res[1])
+                for i in range(n):
+                    if bool(seen[i]) != (D[i].sum() == 1):
+                        return f'node {i} can{"" if seen[i] else "not"} reach a centre but is {"un" if D[i].sum() == 0 else ""}assigned'
+                return None
+            items.append((line, out, 'lloyd_aggregation', has_edge, judge_agg, case))
+            ctx.feat('lloyd_measure:' + measure)
+    outs = ctx.lean([it[0] for it in items]) if items else []
+    for (line, out, what, nontriv, judge, case), o in zip(items, outs):
+        ctx.case(key=_key(line), nontrivial=nontriv,
+                 sample={'request': line[:200], 'model': o[:100], 'impl': out[:100]} if ctx.evaluations % 97 == 0 else None)
+        ctx.feat('lloyd:' + what)
+        if o == 'unmodelled':
+            ctx.feat('lloyd:unmodelled')
+            continue
+        if o != out:
+            ctx.corr(what + ' vs ExtLloyd model', case, o, out)
+        e = judge()
+        if e:
+            ctx.violation(f'{what}: {e}', case)
+
+
 def run(ctx):
     if ctx.quick:
         part_a(ctx, list(graph_stream(ctx, 4, 300, 40)))
         part_b(ctx, list(graph_stream(ctx, 4, 200, 30)))
-        part_c(ctx, list(graph_stream(ctx, 4, 300, 40)))     # last: leaves the random streams of parts a, b unchanged
+        part_c(ctx, list(graph_stream(ctx, 4, 300, 40)))     # after a, b: leaves the random streams of parts a, b unchanged
+        part_d(ctx, list(graph_stream(ctx, 4, 300, 30)))
     else:
         part_a(ctx, list(graph_stream(ctx, 6, 5000, 60)))
         part_b(ctx, list(graph_stream(ctx, 5, 3000, 60)))
         part_c(ctx, list(graph_stream(ctx, 5, 5000, 60)))
+        part_d(ctx, list(graph_stream(ctx, 5, 4000, 50)))
 
 
 def search(ctx):
     part_b(ctx, list(graph_stream(ctx, 5, 1500, 40)))
     part_c(ctx, list(graph_stream(ctx, 5, 1500, 40)))
+    part_d(ctx, list(graph_stream(ctx, 5, 1500, 40)))
+
+
+def replay_lloyd(ctx, c):
+    from pyamg import amg_core
+    from pyamg.aggregation import aggregate as AG
+    n = int(c['n'])
+    ap, aj = np.array(c['ap'], dtype=np.int32), np.array(c['aj'], dtype=np.int32)
+    ax = np.array(c['ax'], dtype=np.float64)
+    if c['routine'] == 'lloyd_cluster':
+        line, out, res = lloyd_cluster_item(n, ap, aj, ax, np.array(c['centers'], dtype=np.int32), int(c['maxiter']))
+    elif c['routine'] == 'most_interior':
+        cc, m, p = (np.array(c[k], dtype=np.int32) for k in ('c', 'm', 'p'))
+        d = np.zeros(n)
+        line = f'ext_c12_most_interior {_hdr(n, ap, aj, ax)} {enc_ints(cc)} {enc_ints(m)} {enc_ints(p)}'
+        ch = amg_core.most_interior_nodes(n, ap, aj, ax, cc, d, m, p)
+        out = enc_ints(cc) + ';' + _orats(d) + ';' + enc_ints(m) + ';' + enc_ints(p) + ';' + ('true' if ch else 'false')
+    else:
+        np.random.seed(int(c['seed']))
+        perm = np.random.permutation(n)
+        np.random.seed(int(c['seed']))
+        C = sp.csr_array((ax.copy(), aj.copy(), ap.copy()), shape=(n, n))
+        ms = 'None' if c['measure'] is None else c['measure']
+        line = f'ext_c12_lloyd_agg {ms} {enc_rat(c["ratio"])} {_hdr(n, ap, aj, ax)} {enc_ints(perm)} {int(c["maxiter"])}'
+        try:
+            AggOp, ce = AG.lloyd_aggregation(C, ratio=c['ratio'], measure=c['measure'], maxiter=int(c['maxiter']))
+            AggOp = sp.csr_array(AggOp)
+            out = enc_ints(AggOp.indptr) + ';' + enc_ints(AggOp.indices) + ';' + enc_ints(AggOp.data) + ';' + enc_ints(ce)
+        except ValueError:
+            out = 'ValueError'
+    o = ctx.lean([line])[0]
+    print('replaying', c['routine'], ': model =', o[:200], '| implementation =', out[:200])
+    if o != out:
+        ctx.corr(c['routine'] + ' vs ExtLloyd model', c, o, out)
 
 
 def replay(ctx, data):
@@ -423,6 +691,11 @@ def replay(ctx, data):
         k = amg_core.pairwise_aggregation(n, ap, aj, ax, x, y)
         print('replaying pairwise kernel: x =', x.tolist(), 'y =', y[:k].tolist(), 'k =', k)
         compare_pairwise_calls(ctx, [(n, ap, aj, ax, x, y, int(k), 'raw')])
+        for v in ctx.violations[:5]:
+            print('  ', v['what'])
+        return
+    if c.get('routine') in ('lloyd_cluster', 'most_interior', 'lloyd_aggregation'):
+        replay_lloyd(ctx, c)
         for v in ctx.violations[:5]:
             print('  ', v['what'])
         return
